@@ -136,3 +136,32 @@ def ValidCooler (s : Stored) : Prop := schemaViolations s = []
 instance (s : Stored) : Decidable (ValidCooler s) := by unfold ValidCooler; exact inferInstance
 
 end Cooler
+
+namespace Cooler
+
+/-! ### runs as segments (contract of the free unit `rlencode`, maximal or not) -/
+
+/-- the array a list of segments `(length, value)` stands for -/
+def expandSegs : List (Nat × Nat) → List Nat
+  | [] => []
+  | (l, v) :: rest => List.replicate l v ++ expandSegs rest
+
+/-- `(start, value)` runs of a segment list laid out from position `pos` -/
+def segsToRuns : Nat → List (Nat × Nat) → List (Nat × Nat)
+  | _, [] => []
+  | pos, (l, v) :: rest => (pos, v) :: segsToRuns (pos + l) rest
+
+/-- `(start, value)` runs over an array of length `total` → segments (lengths = differences of starts) -/
+def runsToSegs (total : Nat) : List (Nat × Nat) → List (Nat × Nat)
+  | [] => []
+  | [(s, v)] => [(total - s, v)]
+  | (s, v) :: (t, w) :: rest => (t - s, v) :: runsToSegs total ((t, w) :: rest)
+
+/-- contract used by the index builder: the runs start at 0 and, read as segments, spell out `xs`
+(constant, ordered, covering — not necessarily maximal) -/
+def runsSpell (xs : List Nat) (runs : List (Nat × Nat)) : Bool :=
+  ((runsToSegs xs.length runs).all fun s => decide (1 ≤ s.1)) &&
+  decide (expandSegs (runsToSegs xs.length runs) = xs) &&
+  decide (segsToRuns 0 (runsToSegs xs.length runs) = runs)
+
+end Cooler
